@@ -34,3 +34,7 @@ def run(ctx):
     S.time_changed_sites(ctx, sc, 'R4.9')
     # an accepted command takes effect as requested: start / run_up_to / run_up_to_including run with their own bound (shared with C03)
     S.r31_horizon(ctx, sc)
+    # every subscriber sees every notification: the dispatch iterates a snapshot of the list registered under the event type, so a
+    # subscriber that unsubscribes while being notified cannot make the next one miss a STOP / END_REPLICATION (shared rule with C08)
+    from . import c08
+    c08.r81(ctx)
